@@ -1,6 +1,6 @@
 """C06 - see DESIGN.md §2 C06.  Deductive parts (contracts/) are added to this module as they are built; the bounded stand-in is checks/b06.py."""
 from vlib import env
-from checks.common import bounded_part, want, contract_sources, make_replay, t_oblig
+from checks.common import anchored, bounded_part, want, contract_sources, make_replay, t_oblig
 from pysym.harness import run_cases
 
 LEVEL = 'exploration'
@@ -19,6 +19,7 @@ def deductive(run):
 def main(run):
     env.setup()
     if want(run, 'P') or want(run, 'T'):
+      with anchored(run, 'C06/P'):
         deductive(run)
     bounded_part(run, 'C06')
     return FINISH
